@@ -94,7 +94,7 @@ func (s *RefSketch) Absorb(v, w float64, side, index int) {
 	}
 	s.Vals[math.Float64bits(v)] += w
 	s.ValTotal += w
-	if g, ok := GranOf(w); ok && g < s.ValGran {
+	if g, ok := GranOf(w); ok && g >= -45 && g < s.ValGran {
 		s.ValGran = g
 	}
 	if w != 1 {
@@ -154,8 +154,8 @@ func (s *RefSketch) Gran() int {
 	if s.Neg.Gran < g {
 		g = s.Neg.Gran
 	}
-	if zg, ok := GranOf(s.Zero); ok && zg < g {
-		g = zg
+	if zg, ok := GranOf(s.Zero); ok && zg < g && (zg >= -45 || !s.Tainted) {
+		g = zg // (an arbitrary-weight model is compared with tolerances and has no granule)
 	}
 	return g
 }
